@@ -45,7 +45,7 @@ package decoder
 //@   loop 1 iter [C15,name:every-validator-of-the-walker-in-turn] v == vw.validators[rangeindex]
 //@   loop 1 invariant [C15] implies(rangeindex == -1, len(diags) == 0)
 //@   ensures [C15,name:no-validators-no-diagnostics] implies(len(vw.validators) == 0, len(diags) == 0)
-//@   ensures [C15] pastloop(1)
+//@   ensures [C15,name:every-validator-is-run] implies(len(vw.validators) > 0, pastloop(1))
 
 // ---- C16 (and every position query): the body a query works on is the root body of the file handed in -
 // ---- native syntax only - and is returned exactly when the position lies in it or on one of its ends.
